@@ -174,6 +174,22 @@ impl Behav {
                         }
                         vec![pool[a].clone(), pool[b].clone()]
                     }
+                    4 if n >= 3 => {
+                        // (thorough) all ordered triples round-robin
+                        let k = (index as usize) % (n * (n - 1) * (n - 2));
+                        let a = k / ((n - 1) * (n - 2));
+                        let rest = k % ((n - 1) * (n - 2));
+                        let mut others: Vec<usize> = (0..n).filter(|x| *x != a).collect();
+                        let b = others.remove(rest / (n - 2));
+                        let c = others[rest % (n - 2)];
+                        vec![pool[a].clone(), pool[b].clone(), pool[c].clone()]
+                    }
+                    5 => {
+                        // (thorough) the whole pool in a random order
+                        let mut v = pool.clone();
+                        r.shuffle(&mut v);
+                        v
+                    }
                     _ => {
                         let size = 2 + r.below(4.min(n - 1));
                         let mut v = pool.clone();
@@ -262,7 +278,7 @@ impl Monitor for Behav {
         }
     }
     fn rule_text(&self) -> String {
-        "cases: (a) every seed-corpus snippet both parsers accept, run under the universal (proxy) environment with the property's full rule list; (b) generated closed programs (type-directed grammar with per-rule idioms), each run against 4 configurations (full list, one rule round-robin, one ordered rule pair round-robin, a random ordered subset) x random generator/column span. Oracle: reference interpreter, trace of external calls + return values must be equal. A case is non-trivial when darklua's output text differs from the input after whitespace normalisation (some rule fired) and the original ran to completion; distinct = hash of (source, rules, generator).".into()
+        "cases: (a) every seed-corpus snippet both parsers accept, run under the universal (proxy) environment with the property's full rule list; (b) generated closed programs (type-directed grammar with per-rule idioms), each run against 4 configurations (full list, one rule round-robin, one ordered rule pair round-robin, a random ordered subset; thorough adds an ordered rule triple round-robin and the whole list in a random order) x random generator/column span. Oracle: reference interpreter, trace of external calls + return values must be equal. A case is non-trivial when darklua's output text differs from the input after whitespace normalisation (some rule fired) and the original ran to completion; distinct = hash of (source, rules, generator).".into()
     }
     fn assumptions(&self) -> Vec<String> {
         vec![
@@ -281,7 +297,7 @@ impl Monitor for Behav {
         vec![("held".into(), 200), ("distinct_nontrivial".into(), 100)]
     }
 
-    fn gen(&mut self, _tier: Tier, seed: u64, index: u64) -> Option<Case> {
+    fn gen(&mut self, tier: Tier, seed: u64, index: u64) -> Option<Case> {
         self.load();
         let det = if self.kind == Kind::C17 { 0 } else { self.corpus.len() as u64 };
         if index < det {
@@ -301,7 +317,7 @@ impl Monitor for Behav {
         let (block, idioms) = prog::generate(&mut r, feat);
         let src = print_block(&block);
         let mut configs = vec![];
-        let nconf = if self.kind == Kind::C17 { 3 } else { 4 };
+        let nconf = if self.kind == Kind::C17 { 3 } else if tier == Tier::Thorough { 6 } else { 4 };
         for slot in 0..nconf {
             let (rules, generator, model) = self.gen_config(&mut r, index, slot);
             configs.push(json!({"rules": rules, "generator": generator, "model": model}));
@@ -361,6 +377,9 @@ impl Monitor for Behav {
                     }
                     if names.len() == 2 {
                         cov.hit("ordered_pairs_run");
+                    }
+                    if names.len() == 3 {
+                        cov.hit("ordered_triples_run");
                     }
                     if changed && cfg["model"].get("env").is_some() {
                         let form = rules.first().map(|r| if r.contains("env_json") { "env_json" } else { "env" }).unwrap_or("env");
